@@ -171,6 +171,8 @@ func (s *scanner) ReadString() (String, error) {
 			return nil, err
 		}
 		if ignoreLF && b == 10 {
+			// only the first LF after a CR is part of the line end
+			ignoreLF = false
 			continue
 		}
 		ignoreLF = false
